@@ -1384,10 +1384,64 @@ func genCase(r *rand.Rand, w *bufio.Writer, id string, tier string) {
 	_ = tier
 }
 
+// genExhaustive: for a few small DAGs, every responder store subset x a grid of extension
+// combinations (single uninterrupted request, scripted batching).
+func genExhaustive(r *rand.Rand, w *bufio.Writer, ndags int) {
+	made := 0
+	for tries := 0; made < ndags && tries < 1000; tries++ {
+		seed := r.Int63n(1 << 40)
+		maxBlocks := 2 + r.Intn(4)
+		flags := []string{"ISR", "ISRE", "SR", "IS"}[r.Intn(4)]
+		d, _, sel := buildDag(seed, maxBlocks, flags)
+		lt, _, err := dag.Reference(d, sel, nil)
+		if err != nil || len(d.Cids) > 5 || len(lt.Loads) < 3 {
+			continue
+		}
+		made++
+		var empties []int
+		for i, c := range d.Cids {
+			if len(d.Data[c]) == 0 {
+				empties = append(empties, i)
+			}
+		}
+		si := dag.NewSegInterner()
+		ltLine := lt.Format(si.Name)
+		nb := len(d.Cids)
+		nl := len(lt.Loads)
+		skips := []string{"-", "0", "1", "2", strconv.Itoa(nl - 1), strconv.Itoa(nl)}
+		igns := []string{"-"}
+		for i := 0; i < nb; i++ {
+			igns = append(igns, strconv.Itoa(i))
+		}
+		k := 0
+		for mask := 0; mask < 1<<uint(nb); mask++ {
+			var held []int
+			for i := 0; i < nb; i++ {
+				if mask&(1<<uint(i)) != 0 {
+					held = append(held, i)
+				}
+			}
+			for _, sk := range skips {
+				for _, ig := range igns {
+					for _, key := range []string{"-", "1"} {
+						fmt.Fprintf(w, "case x%d-%d\ndag %d %d %s\nlt %s\nstore h=%s c=- e=%s rd=%s\nmq fake %d\n", made, k, seed, maxBlocks, flags, ltLine,
+							joinInts(held), joinInts(empties), []string{"rdr", "buf"}[k%2], 1+k%3)
+						fmt.Fprintf(w, "req 1 key=%s ign=%s skip=%s hook=ok stop=none\n", key, ig, sk)
+						k++
+					}
+				}
+			}
+		}
+	}
+}
+
 func Gen(seed int64, n int, tier string, w *bufio.Writer) {
 	r := rand.New(rand.NewSource(seed))
 	for i := 0; i < n; i++ {
 		genCase(r, w, fmt.Sprintf("r%d", i), tier)
+	}
+	if tier == "thorough" {
+		genExhaustive(r, w, 12)
 	}
 }
 
